@@ -12,6 +12,7 @@ mod harness;
 mod plan;
 mod structcheck;
 mod sys_burst;
+mod sys_capscript;
 mod sys_ds;
 mod sys_event;
 mod sys_mpmc;
@@ -81,6 +82,8 @@ macro_rules! systems {
             "ds.heap" => sys_ds::HeapSys,
             "burst" => sys_burst::Sys,
             "burstscript" => sys_burst::Script,
+            "mpmc.capscript.fix" => sys_capscript::Fix,
+            "mpmc.capscript.grow" => sys_capscript::Grow,
             "ds.heapscript" => sys_ds::HeapScript,
             "mutex.local" => sys_mutex::Sys<NL>,
             "mutex.std" => sys_mutex::Sys<PL>,
